@@ -223,6 +223,9 @@ pub struct Obs {
     pub output: Vec<u8>,
     pub result: String,
     pub lint: String,
+    /// the command-line layer's entry points on the same text:
+    /// cli::linter::lint, cli::linter::run, cli::parser::run
+    pub cli: String,
 }
 
 impl Obs {
@@ -232,12 +235,14 @@ impl Obs {
             ("output", J::S(render_bytes(&self.output))),
             ("result", J::s(self.result.clone())),
             ("lint", J::s(self.lint.clone())),
+            ("cli_entry_points", J::s(self.cli.clone())),
         ])
     }
     pub fn hash(&self) -> u64 {
         let mut h = hash_bytes(self.parse.as_bytes());
         h = hash_combine(h, hash_bytes(&self.output));
         h = hash_combine(h, hash_bytes(self.result.as_bytes()));
+        h = hash_combine(h, hash_bytes(self.cli.as_bytes()));
         hash_combine(h, hash_bytes(self.lint.as_bytes()))
     }
 }
@@ -263,6 +268,48 @@ impl Config {
     }
 }
 
+fn plain(text: String) -> String {
+    String::from_utf8_lossy(&procworld::strip_sgr(text.as_bytes())).into_owned()
+}
+
+/// What the command-line layer's library entry points return for the text.
+fn cli_text(source: &str) -> String {
+    let mut s = String::new();
+    s.push_str("cli::linter::lint -> ");
+    s.push_str(&match guarded(|| match rrss::cli::linter::lint(source) {
+        Ok(r) => r
+            .diags
+            .iter()
+            .map(|d| format!("line {}|{}|{}", d.line, d.issue, d.suggestions.join("|")))
+            .collect::<Vec<_>>()
+            .join("\n"),
+        Err(e) => format!("Err: {}", plain(e.to_string())),
+    }) {
+        Ok(t) => t,
+        Err(m) => format!("PANIC: {}", m),
+    });
+    s.push_str("\ncli::linter::run -> ");
+    s.push_str(&match guarded(|| match rrss::cli::linter::run(source) {
+        Ok(o) => plain(o.to_string()),
+        Err(e) => format!("Err: {}", plain(e.to_string())),
+    }) {
+        Ok(t) => t,
+        Err(m) => format!("PANIC: {}", m),
+    });
+    s.push_str("\ncli::parser::run -> ");
+    s.push_str(&match guarded(|| match rrss::cli::parser::run(source) {
+        Ok(o) => {
+            let t = plain(o.to_string());
+            format!("{} bytes, hash {:016x}", t.len(), hash_bytes(t.as_bytes()))
+        }
+        Err(e) => format!("Err: {}", plain(e.to_string())),
+    }) {
+        Ok(t) => t,
+        Err(m) => format!("PANIC: {}", m),
+    });
+    s
+}
+
 fn lint_text(program: &rrss::frontend::ast::Program) -> String {
     let r = rrss::linter::standard_linter().run(program);
     let mut s = String::new();
@@ -276,7 +323,9 @@ fn lint_text(program: &rrss::frontend::ast::Program) -> String {
 /// observation and the dictionary-order probe log.
 pub fn observe(source: &str, input: &[u8], cfg: &Config) -> (Obs, Vec<String>, u64) {
     crate::driver::heartbeat();
+    let slot = crate::driver::current_slot();
     let inner = || -> (Obs, Vec<String>, u64) {
+        crate::driver::adopt_slot(slot);
         // heap perturbation: junk allocations held across the run
         let mut junk: Vec<Vec<u8>> = Vec::new();
         if cfg.heap_junk != 0 {
@@ -295,7 +344,10 @@ pub fn observe(source: &str, input: &[u8], cfg: &Config) -> (Obs, Vec<String>, u
             match rrss::frontend::parser::parse(source) {
                 Err(e) => (format!("Err: {}", e), RunResult::Ok, String::new()),
                 Ok(program) => {
-                    let lint = lint_text(&program);
+                    let lint = match guarded(|| lint_text(&program)) {
+                        Ok(l) => l,
+                        Err(m) => format!("PANIC: {}", m),
+                    };
                     let result = if cfg.run_using {
                         match rrss::cli::exec::run_using(r, w, source) {
                             Ok(_) => RunResult::Ok,
@@ -316,6 +368,7 @@ pub fn observe(source: &str, input: &[u8], cfg: &Config) -> (Obs, Vec<String>, u
         });
         let probe = rrss::verif_seams::take_dict_order_probe();
         rrss::verif_seams::enable_dict_order_probe(false);
+        let cli = cli_text(source);
         drop(junk);
         let wb = world.borrow();
         let (parse, result, lint) = match res {
@@ -336,6 +389,7 @@ pub fn observe(source: &str, input: &[u8], cfg: &Config) -> (Obs, Vec<String>, u
                 output: wb.accepted.clone(),
                 result,
                 lint,
+                cli,
             },
             probe,
             wb.calls as u64,
@@ -381,8 +435,10 @@ fn first_diff_field(a: &Obs, b: &Obs) -> &'static str {
         "output bytes"
     } else if a.result != b.result {
         "Ok/Err or runtime error text"
-    } else {
+    } else if a.lint != b.lint {
         "lint report"
+    } else {
+        "result of a command-line-layer entry point (cli::linter::lint / cli::linter::run / cli::parser::run)"
     }
 }
 
@@ -428,6 +484,26 @@ impl Property for C10 {
     }
 
     fn run(&self, tape: &mut Tape, ctx: &Ctx, stats: &mut Stats) -> ScenarioResult {
+        // Every scenario runs on a thread of its own, so that state the code
+        // under test keeps per thread starts clean for each scenario and a
+        // re-run of the scenario (minimisation, replay) sees what this run saw.
+        let slot = crate::driver::current_slot();
+        std::thread::scope(|s| {
+            std::thread::Builder::new()
+                .stack_size(32 << 20)
+                .spawn_scoped(s, || {
+                    crate::driver::adopt_slot(slot);
+                    self.run_scenario(tape, ctx, stats)
+                })
+                .expect("spawn scenario thread")
+                .join()
+                .expect("scenario thread panicked (harness error)")
+        })
+    }
+}
+
+impl C10 {
+    fn run_scenario(&self, tape: &mut Tape, ctx: &Ctx, stats: &mut Stats) -> ScenarioResult {
         // workload: dictionary programs, or (one third) I/O scripts
         let (source, input, features): (String, Vec<u8>, Vec<&'static str>) = if tape.chance(1, 3) {
             let sc = crate::c08::gen_scenario(tape);
